@@ -260,6 +260,26 @@ class CarrierGrid(Case):
         for values in grid:
             for variant in self.variants():
                 yield ("%s:%s" % variant, "%s:%s" % variant, values, (lambda values=values, variant=variant: self.one(values, variant)))
+        def inexact(v):
+            # the same series at magnitudes float32 cannot hold exactly: the data are float32 numbers (so the
+            # float32 carrier holds the very same values), the parameters stay Python floats such as 0.1 -
+            # a comparison carried out in float32 would round the parameter onto the data
+            import numpy as np
+
+            skip = {"n", "m", "nl", "nt", "t", "D", "period", "min_obs", "min_period", "keep", "st", "ft", "members", "dtype"}
+            w = {}
+            for k_, x in v.items():
+                if k_ in ("x", "z", "lon", "lat") and isinstance(x, list):
+                    w[k_] = [None if a is None else float(np.float32(float(a) * 0.1)) for a in x]
+                elif k_ in skip or x is None or isinstance(x, (list, dict, str, bool)):
+                    w[k_] = x
+                else:
+                    w[k_] = float(x) * 0.1
+            return w
+
+        for values in grid:
+            iv = inexact(values)
+            yield ("data:float32", "data:float32", iv, (lambda values=iv: self.one(values, ("data", "float32"))))
         for values in grid:
             sv = scaled(values)
             if sv == values:
